@@ -167,6 +167,25 @@ def check(facts, rep, tier, cfg):
         else:
             rep.bad("C16.R3", "timeout-clamped", where, "keepalive_timeout is stored as `%s`, not max(argument, keepalive_interval): a timeout shorter than the interval fires before the first ping can be answered" % fmt(v))
     rep.floor("C16.R3", "keepalive_timeout setters", n3, 1)
+    # the clamp reads the interval stored at that moment: wherever both setters are applied the interval is set first
+    for cr in facts.crates.values():
+        for b in cr.bodies:
+            if "::tests::" in b.path or "/tests" in b.file:
+                continue
+            tos = [(bi, t) for bi, t in b.calls() if callee(t) and callee(t)["name"] == "keepalive_timeout" and "config::Options" in callee(t)["path"]]
+            ivs = [(bi, t) for bi, t in b.calls() if callee(t) and callee(t)["name"] == "keepalive_interval" and "config::Options" in callee(t)["path"]]
+            if not tos or not ivs:
+                continue
+            tr = Tracer(facts, b)
+            for bi, t in tos:
+                where = "%s (%s)" % (loc_str(t["loc"]), b.path)
+                recv = tr.operand(t["args"][0])
+                if any(x.kind == "call" and x[6] == "keepalive_interval" for x in walk(recv)):
+                    rep.ok("C16.R3", "interval-set-before-timeout/%s" % b.path.split("::{")[0], where, "keepalive_timeout applied to Options that already carry the interval")
+                else:
+                    rep.bad("C16.R3", "interval-set-before-timeout/%s" % b.path.split("::{")[0], where,
+                            "keepalive_timeout() is applied before keepalive_interval(): the clamp max(timeout, interval) uses the default interval, "
+                            "so a configured timeout shorter than the configured interval survives unclamped (T < I)")
     # ---- R4
     rep.rule("C16.R4", "disabled = never: tick(None) -> pending(); cmp_duration(None) = Greater, direction d.cmp(other); zero -> None")
     for b in crate.bodies:
